@@ -60,6 +60,11 @@ THEOREMS = [P + t for t in [
     "collator_sees_own_key",
     "collator_history_sees_own_keys",
     "collator_cache_bounded",
+    "later_key_reached_only_on_tie",
+    "sorter_clean_at_exit",
+    "sortOnce_correct",
+    "sorter_history_correct",
+    "noCacheGuards_counterexample",
     "process_positions",
 ]]
 
@@ -336,6 +341,8 @@ def classify(case):
         tags.append("empty")
     if any(v[0] == "n" and v[2] in (float("inf"), float("-inf")) for v in vals):
         tags.append("inf")
+    if case.get("abort"):
+        tags.append("abort-" + case["abort"])
     if any(k.get("odd") for k in ks):
         tags.append("odd-attr" if not G.expects_error(case) else "invalid-attr")
     return "%s%s/%dkeys/%s" % ("unicode-" if "pool" in case else "", case["mode"], len(ks), "+".join(tags) or "plain")
@@ -406,6 +413,9 @@ def run(ctx):
     for cnt, maxn in plan:
         for _ in range(cnt):
             cases.append(G.gen_case(r, maxn=maxn))
+    # sorts that abort in the middle (key values already cached), each followed by an ordinary sort on the same transformer
+    for _ in range(250 if not ctx.thorough else 5000):
+        cases += G.gen_abort_pair(r)
     # second stream: arbitrary Unicode text keys, collation = what the library's ICU functor answers
     nuni = 1500 if not ctx.thorough else 30000
     for _ in range(nuni):
@@ -430,6 +440,8 @@ def run(ctx):
                 cases.append(G.gen_case(ra, maxn=maxn))
         for _ in range(1000):
             cases.append(G.gen_ucase(ra, maxn=14))
+        for _ in range(400):
+            cases += G.gen_abort_pair(ra)
         ctx.extra["asan_cases"] = len(cases) - asan_from
     results = []
     irc, ierr = 0, ""
